@@ -224,15 +224,17 @@ ToGdf(h, pe, pr, en, cache, override) ==
      /\ UNCHANGED << ds, ver, ideal, ball, kd, poly, line, jac, tmpl, exports >>
 
 \* UxDataArray.to_geodataframe: the grid's frame plus one data column named after the variable
-DataToGdf(h, pe, en, col) ==
+DataToGdf(h, pe, en, col, cache) ==
   LET req == [pe |-> pe, proj |-> "none", eng |-> en]
       hit == Hit(gdf[h], req, Mech.gdfCmp, FALSE)
       base == IF hit THEN gdf[h] ELSE CacheRec(req, KeyOf(req, Mech.gdfStore))
       withcol == [base EXCEPT !.cols = @ \cup { col }]
+      kept == IF Mech.dataColInto = "cached" THEN withcol ELSE base
   IN /\ Live(h) /\ pe # "split"
      /\ Materialise(h, PlotNeeds)
-     /\ gdf' = [gdf EXCEPT ![h] = IF Mech.dataColInto = "cached" THEN withcol ELSE base]
-     /\ Obs("DataToGdf", h, <<pe, en, col>>,
+     \* on a hit the grid hands out its cached frame whatever `cache` says; a new frame is kept only if asked to
+     /\ gdf' = IF hit \/ cache THEN [gdf EXCEPT ![h] = kept] ELSE gdf
+     /\ Obs("DataToGdf", h, <<pe, en, col, cache>>,
             <<ver[D(h)], base.built, withcol.cols, base.edited>>, <<ideal[h], req, { col }, FALSE>>)
      /\ UNCHANGED << ds, ver, ideal, ball, kd, poly, line, jac, tmpl, exports >>
 
@@ -367,7 +369,7 @@ ReadOnly ==
          \/ \E en \in Engs : PlotOne(pe, pr, en) /\ ToGdf(h, pe, pr, en, cache, override)
          \/ PlotOne(pe, pr, "geopandas") /\ ToPoly(h, pe, pr, cache, override)
          \/ PlotOne(pe, pr, "geopandas") /\ ToLine(h, pe, pr, cache, override)
-    \/ On("data") /\ \E pe \in PEs, en \in Engs, col \in { "a", "b" } : DataToGdf(h, pe, en, col)
+    \/ On("data") /\ \E pe \in PEs, en \in Engs, col \in { "a", "b" }, cache \in FlagVals(TRUE) : DataToGdf(h, pe, en, col, cache)
     \/ On("export") /\ \E f \in Fmts : ToXarray(h, f)
     \/ On("derive") /\ \E how \in { "isel_face", "isel_node", "isel_edge", "xsec", "dual", "bbox" } : Derive(h, how)
     \/ On("chunk") /\ Chunk(h)
